@@ -56,10 +56,13 @@ Proof. vm_compute. split; [reflexivity|]. split; [|reflexivity]. do 29 right. le
 Theorem skip_read_equals_full_context_refuted : ~ skip_read_equals_full_context_full.
 Proof.
   intros Hfull.
-  destruct (Hfull g141212 [Read 29; Skip 40; Read 5] g141212_ok) as (_ & Hall).
-  { repeat constructor; cbn; discriminate. }
+  assert (Hnn : Forall op_nonneg [Read 29; Skip 40; Read 5]).
+  { repeat constructor. cbn [op_nonneg]. discriminate. }
+  pose proof (Hfull g141212 _ g141212_ok Hnn) as Hx. cbv zeta in Hx. destruct Hx as (_ & Hall).
   destruct refuted_context_v4 as (_ & Hin & Hid).
-  rewrite Forall_forall in Hall. specialize (Hall _ Hin). cbn [fst snd] in Hall. rewrite Hid in Hall. discriminate.
+  rewrite Forall_forall in Hall.
+  assert (Hc : (50, 51) = ideal_c g141212 69) by exact (Hall _ Hin).
+  rewrite Hid in Hc. discriminate Hc.
 Qed.
 
 (* hazard-free behaviour of the same geometry one row before the boundary, and with v = 2 *)
